@@ -3,7 +3,7 @@ import UtilModel.Core.Monitor
 /-!
 # refcount: the properties C08 and C09 as executable monitors over observable histories
 
-Each property is the conjunction (`ObsMonitor.prod`) of small clause monitors that mention only
+Each property is the conjunction (`ObsMonitor.rcBoth`) of small clause monitors that mention only
 API-level events: invocations and responses of `AddRef` / `Release` / `SetContext` / `ClearContext`,
 entries and returns of the resolver, entries of reference callbacks and release functions (with what
 they were given / what they saw in the target container), `released()` invocations, context
@@ -15,21 +15,21 @@ value names the entry that produced it.
 namespace UtilModel
 
 /-- conjunction of two monitors -/
-def ObsMonitor.prod {ο μ ν : Type} (a : ObsMonitor ο μ) (b : ObsMonitor ο ν) : ObsMonitor ο (μ × ν) where
+def ObsMonitor.rcBoth {ο μ ν : Type} (a : ObsMonitor ο μ) (b : ObsMonitor ο ν) : ObsMonitor ο (μ × ν) where
   init := (a.init, b.init)
   step := fun m o =>
     match a.step m.1 o, b.step m.2 o with
     | some x, some y => some (x, y)
     | _, _ => none
 
-theorem ObsMonitor.prod_run {ο μ ν : Type} (a : ObsMonitor ο μ) (b : ObsMonitor ο ν) (m : μ × ν)
+theorem ObsMonitor.rcBoth_run {ο μ ν : Type} (a : ObsMonitor ο μ) (b : ObsMonitor ο ν) (m : μ × ν)
     (h : List ο) :
-    ((a.prod b).run m h).isSome = ((a.run m.1 h).isSome && (b.run m.2 h).isSome) := by
+    ((a.rcBoth b).run m h).isSome = ((a.run m.1 h).isSome && (b.run m.2 h).isSome) := by
   induction h generalizing m with
   | nil => simp [ObsMonitor.run]
   | cons o os ih =>
     simp only [ObsMonitor.run]
-    have hp : (a.prod b).step m o = match a.step m.1 o, b.step m.2 o with
+    have hp : (a.rcBoth b).step m o = match a.step m.1 o, b.step m.2 o with
       | some x, some y => some (x, y)
       | _, _ => none := rfl
     rw [hp]
@@ -41,10 +41,10 @@ theorem ObsMonitor.prod_run {ο μ ν : Type} (a : ObsMonitor ο μ) (b : ObsMon
       | some y => simpa using ih (x, y)
 
 /-- the conjunction accepts a history iff both monitors do -/
-theorem ObsMonitor.prod_accepts {ο μ ν : Type} (a : ObsMonitor ο μ) (b : ObsMonitor ο ν) (h : List ο) :
-    (a.prod b).accepts h = (a.accepts h && b.accepts h) := by
+theorem ObsMonitor.rcBoth_accepts {ο μ ν : Type} (a : ObsMonitor ο μ) (b : ObsMonitor ο ν) (h : List ο) :
+    (a.rcBoth b).accepts h = (a.accepts h && b.accepts h) := by
   simp only [ObsMonitor.accepts]
-  exact ObsMonitor.prod_run a b (a.init, b.init) h
+  exact ObsMonitor.rcBoth_run a b (a.init, b.init) h
 
 namespace RefCount
 
@@ -141,7 +141,7 @@ def monEventually : ObsMonitor Obs EvSt where
             m.ctx != some 0) then some m else none
     | _ => some m
 
-abbrev monC08 := (monOnce.prod monHidden).prod (monHeld.prod monEventually)
+abbrev monC08 := (monOnce.rcBoth monHidden).rcBoth (monHeld.rcBoth monEventually)
 
 /-! ## C09 -/
 
@@ -221,7 +221,7 @@ def monProgress : ObsMonitor Obs ProgSt where
       else some m
     | _ => some m
 
-abbrev monC09 := (monOneResolver.prod monNoPanic).prod monProgress
+abbrev monC09 := (monOneResolver.rcBoth monNoPanic).rcBoth monProgress
 
 end RefCount
 end UtilModel
